@@ -71,3 +71,33 @@ Theorem C13_parse_partition : forall o s items,
     Tiled 0 gs items.
 Proof. exact parse_partition. Qed.
 Print Assumptions C13_parse_partition.
+
+(* "each part records the index of its first line": the parts of a chunk that starts at docstring line n lie back
+   to back from n to n + (number of source lines), provided the ast oracle reports statements on lines of the
+   source it was given (AstInRange; CPython's ast does) *)
+Theorem C13_offsets_are_line_indices : forall o raw_src raw_want lineno ps,
+  AstInRange o -> package_chunk o raw_src raw_want lineno = Ok ps ->
+  Consecutive lineno ps (lineno + length raw_src).
+Proof. exact package_chunk_consecutive. Qed.
+Print Assumptions C13_offsets_are_line_indices.
+
+(* end to end: the items are laid out over the labelled lines (one per docstring line) chunk after chunk, each
+   part's line offset being the position of its first line *)
+Theorem C13_parse_offsets : forall o s items,
+  AstInRange o -> parse o s = Parsed items ->
+  exists (ll : list (label * str)) gs,
+    length ll = length (splitlines (normalize_docstring s)) /\
+    flatten_chunks gs = map snd ll /\
+    LaidOut 0 gs items.
+Proof. exact parse_offsets. Qed.
+Print Assumptions C13_parse_offsets.
+
+(* non-vacuity: an in-range oracle exists, and on a two-statement chunk with a want it yields two parts at
+   consecutive lines, the want on the second *)
+Theorem C13_hypotheses_satisfiable :
+  AstInRange demo_oracle /\
+  exists p1 p2, package_chunk demo_oracle demo_src demo_want 7 = Ok [p1; p2] /\
+    line_offset p1 = 7%nat /\ line_offset p2 = 8%nat /\ want_lines p1 = [] /\ want_lines p2 = demo_want /\
+    Consecutive 7 [p1; p2] 9.
+Proof. exact (conj demo_oracle_in_range demo_chunk_two_parts). Qed.
+Print Assumptions C13_hypotheses_satisfiable.
